@@ -201,7 +201,7 @@ def run(ctx):
     for k in range(12 if thorough else 5):
         r = subprocess.run([exe, "-json", "./..."], cwd=root, env=vlib.go_env(), stdout=subprocess.PIPE, stderr=subprocess.PIPE, text=True, timeout=300)
         nrun += 1
-        if (r.returncode != 0 or "fatal error" in r.stderr or "panic:" in r.stderr) and len(ctx.violations) < 3:
+        if (r.returncode != 0 or vlib.crashed(r.stderr)) and len(ctx.violations) < 3:
             ctx.violation("standalone run %d over 48 independent packages crashed: %s" % (k, r.stderr[:300].replace("\n", " | ")),
                           {"kind": "program", "program": adapters, "expected": [], "cats": [], "stderr": r.stderr[:3000]})
             break
@@ -227,7 +227,7 @@ def run(ctx):
     with open(path, "w") as f:
         for e in events:
             f.write(json.dumps(e) + "\n")
-    r = ctx.tlc("CorpusTrace", c09.TCFG % path, workers=1, label="c10_corpus", allow_violation=True, timeout=2400, jvm="-XX:ParallelGCThreads=2 -Xss64m")
+    r = ctx.tlc("CorpusTrace", c09.TCFG % path, workers=1, label="c10_corpus", allow_violation=True, timeout=2400, jvm="-XX:ParallelGCThreads=2 -Xmx3g -Xss64m")
     accepted = len(events)
     if r["violated"] is not None:
         if r["violated"] != "POSTCONDITION":
